@@ -1,0 +1,7 @@
+//go:build !verif
+
+package amm
+
+import sdkmath "cosmossdk.io/math"
+
+func verifFill(_ Order, _ sdkmath.Int, _ sdkmath.LegacyDec, _, _ sdkmath.Int) {}
